@@ -20,7 +20,13 @@ class AsyncioSingleTask:
                 except asyncio.CancelledError:
                     pass
 
-            self._handle = task_group._task_group.create_task(action())  # type: ignore
+            coroutine = action()
+            try:
+                self._handle = task_group._task_group.create_task(coroutine)  # type: ignore
+            except RuntimeError:
+                # The task group (and so the connection) is shutting down
+                coroutine.close()
+                self._handle = None
 
     async def stop(self) -> None:
         async with self._lock:
